@@ -38,16 +38,17 @@ def rider_xrcompose(ctx):
         st += mc["states"]
         tr += mc["transitions"]
     # another owner takes a composed resource over in the middle of the XR's garbage collection (environment step "grab")
-    nme = "pipe_quick" if ctx.quick else "pipe_thorough"
-    mc = sub.model_check("MCXRCompose", "MCXRCompose_%s.cfg" % nme, sub="mc_" + nme, workers=8, timeout=1800)
-    grabs = []
-    with open(mc["emitted_file"]) as f:
-        for i, line in enumerate(f, 1):
-            if '"grab"' in line:
-                grabs.append({"id": "%s-%s-%07d" % (PID, nme, i), "hist": json.loads(line), "rider": "xrcompose"})
-    scs += sub.sample(grabs, 300 if ctx.quick else 5000)
-    st += mc["states"]
-    tr += mc["transitions"]
+    # (both composers: the P&T associator collects while it reads - added after the seeded change C02-m6 was missed)
+    for nme in (["pipe_quick", "pt_quick"] if ctx.quick else ["pipe_thorough", "pt_thorough"]):
+        mc = sub.model_check("MCXRCompose", "MCXRCompose_%s.cfg" % nme, sub="mc_" + nme, workers=8, timeout=1800)
+        grabs = []
+        with open(mc["emitted_file"]) as f:
+            for i, line in enumerate(f, 1):
+                if '"grab"' in line:
+                    grabs.append({"id": "%s-%s-%07d" % (PID, nme, i), "hist": json.loads(line), "rider": "xrcompose"})
+        scs += sub.sample(grabs, 300 if ctx.quick else 5000)
+        st += mc["states"]
+        tr += mc["transitions"]
     s, n = xrcompose.drive_and_judge(sub, PID, scs, sweep=1, shards=4)
     return sub, dict(states=st, transitions=tr, runs=s["runs"], events=n, samples=s["samples"][:1])
 
